@@ -33,7 +33,8 @@ def gen_program(rng, nsites=None):
         p = rng.choice(live)
         trace.append(p.pop(0))
         live = [p for p in pending if p]
-    return {"flags": flags, "sites": sites, "trace": trace, "pairs": [(sl[i], sl[i + 1]) for i in range(0, len(sl), 2)]}
+    # every third program starts with a test whose comparison raises while a list is aligned (documented usage: nothing of it may leak into the sites below)
+    return {"flags": flags, "sites": sites, "trace": trace, "pairs": [(sl[i], sl[i + 1]) for i in range(0, len(sl), 2)], "raiser": rng.random() < 0.34}
 
 
 def render_program(prog):
@@ -50,6 +51,10 @@ def render_program(prog):
         if s["style"] == "helper":
             out.append(f"def site{k}():\n    return snapshot({arg(k)})\n")
             order.append(k)
+    if prog.get("raiser"):
+        from ..proggen import PICKY
+        out.append(PICKY + "\ndef test_0():\n    try:\n        assert [Picky(1)] == snapshot([1])\n    except ValueError:\n        pass\n")
+        order.append(-1)
     out.append("def test_a():")
     paired = {a: b for a, b in prog["pairs"]}
     second = set(paired.values())
@@ -99,10 +104,13 @@ def run_program(prog):
             if k is None:
                 out["error"] = f"snapshot at {s['line']}:{s['col']} not a generated call site"
                 return out
-            reported[k] = s["flags"]
+            if k >= 0:
+                reported[k] = s["flags"]
         vals = {}
         for i, c in enumerate(after_calls):
             k = order[i]
+            if k < 0:
+                continue
             vals[k] = ("none",) if not c.args else ("val", eval(compile(ast.Expression(c.args[0]), "<a>", "eval"), {}))
         out["per_site"] = [(reported[k], vals[k]) for k in range(len(prog["sites"]))]
     except Exception as e:  # noqa
